@@ -58,6 +58,8 @@ type thriftVec struct {
 	CompLongAsIs []tItem  `json:"complongasis"`
 	BinAsIsW     []tItem  `json:"binasisw"`
 	CompAsIsW    []tItem  `json:"compasisw"`
+	BinRevAsIs   []tItem  `json:"binrevasis"`
+	CompRevAsIs  []tItem  `json:"comprevasis"`
 }
 
 var sub1Layout = []tField{{ID: 1, Ty: "I64"}, {ID: 2, Ty: "BOOL"}}
